@@ -864,8 +864,16 @@ pub fn task_campaign(cfg: &Cfg, rep: &mut Report, n: usize) {
 // ---------------------------------------------------------------------------
 
 pub fn run_scen_free(s: &Scen) -> Outcome {
+  run_scen_free_mode(s, conc::OFF, 0)
+}
+
+/// plain OS threads running truly in parallel; `mode` FREE injects seeded
+/// yields / spins / micro-sleeps at every lock point. A thread that does not
+/// finish within 20 s is reported through `timed_out` (no logical witness:
+/// inconclusive, never a violation).
+pub fn run_scen_free_mode(s: &Scen, mode: u8, seed: u64) -> Outcome {
   let prev = conc::mode();
-  conc::set_mode(conc::OFF);
+  conc::set_mode(mode);
   crate::vtime::reset();
   let log = Log::new();
   let pool = Pool::new();
@@ -880,85 +888,114 @@ pub fn run_scen_free(s: &Scen) -> Outcome {
       Kind::Behavior => BoxSubscriptionThreads::new(beh.clone().actual_subscribe(p)),
       Kind::Pipe(c) => BoxSubscriptionThreads::new(threads::build(c, &cx).actual_subscribe(p)),
     };
-    subs.lock().unwrap().push(Some(u));
+    let mut g = subs.lock().unwrap();
+    g.push(Some(u));
+    log.mark(CALL, "sub_ret", (id as i64) * 100 + (g.len() - 1) as i64);
   };
   for i in 0..s.initial_subs {
     mk_sub(1 + i as u32);
   }
   let left = Arc::new(AtomicUsize::new(s.threads.len()));
-  let mut hs = vec![];
+  let done = Arc::new(AtomicUsize::new(0));
+  let total_threads = s.threads.len() + s.workers;
   for (ti, script) in s.threads.iter().enumerate() {
-    let (script, hot, beh, kind, subs, left) = (script.clone(), hot.clone(), beh.clone(), s.kind.clone(), subs.clone(), left.clone());
-    hs.push(std::thread::spawn(move || {
+    let (script, hot, beh, kind, subs, left, log, done) = (script.clone(), hot.clone(), beh.clone(), s.kind.clone(), subs.clone(), left.clone(), log.clone(), done.clone());
+    std::thread::spawn(move || {
       set_thread_id(ti as u32 + 1);
+      conc::free_seed(seed ^ (ti as u64 + 1).wrapping_mul(0x9E3779B97F4A7C15));
       let mut counter = 0;
       for op in script {
         match op {
           TOp::Next(k) => {
             counter += 1;
-            let v = V::I((ti as i64 + 1) * 1000 + counter);
+            let v = (ti as i64 + 1) * 1000 + counter;
+            log.mark(CALL + ti as u32, "next_call", v);
             match kind {
               Kind::Behavior => {
                 let mut b = beh.clone();
-                Observer::<V, E>::next(&mut b, v)
+                Observer::<V, E>::next(&mut b, V::I(v))
               }
-              _ => hot[k].clone().next(v),
+              _ => hot[k].clone().next(V::I(v)),
             }
+            log.mark(CALL + ti as u32, "next_ret", v);
           }
-          TOp::Complete(k) => match kind {
-            Kind::Behavior => Observer::<V, E>::complete(beh.clone()),
-            _ => hot[k].clone().complete(),
-          },
-          TOp::Error(k) => match kind {
-            Kind::Behavior => Observer::<V, E>::error(beh.clone(), 7),
-            _ => hot[k].clone().error(7),
-          },
+          TOp::Complete(k) | TOp::Error(k) => {
+            let is_c = matches!(op, TOp::Complete(_));
+            log.mark(CALL + ti as u32, "term_call", k as i64);
+            match (&kind, is_c) {
+              (Kind::Behavior, true) => Observer::<V, E>::complete(beh.clone()),
+              (Kind::Behavior, false) => Observer::<V, E>::error(beh.clone(), 7),
+              (_, true) => hot[k].clone().complete(),
+              (_, false) => hot[k].clone().error(7 + k as i32),
+            }
+            log.mark(CALL + ti as u32, "term_ret", k as i64);
+          }
           TOp::Unsub(k) => {
             let u = subs.lock().unwrap().get_mut(k).and_then(|u| u.take());
             if let Some(u) = u {
-              u.unsubscribe()
+              log.mark(CALL + ti as u32, "unsub_call", k as i64);
+              u.unsubscribe();
+              log.mark(CALL + ti as u32, "unsub_ret", k as i64);
             }
           }
-          TOp::UnsubSubject => match kind {
-            Kind::Behavior => beh.clone().unsubscribe(),
-            _ => hot[0].clone().unsubscribe(),
-          },
+          TOp::UnsubSubject => {
+            log.mark(CALL + ti as u32, "term_call", 99);
+            match kind {
+              Kind::Behavior => beh.clone().unsubscribe(),
+              _ => hot[0].clone().unsubscribe(),
+            }
+            log.mark(CALL + ti as u32, "term_ret", 99);
+          }
           TOp::Subscribe | TOp::Peek => {}
         }
       }
       left.fetch_sub(1, Ordering::SeqCst);
-    }));
+      done.fetch_add(1, Ordering::SeqCst);
+    });
   }
   for wi in 0..s.workers {
-    let (pool, left) = (pool.clone(), left.clone());
-    hs.push(std::thread::spawn(move || {
+    let (pool, left, done) = (pool.clone(), left.clone(), done.clone());
+    let cap = s.worker_spins.max(200);
+    std::thread::spawn(move || {
       set_thread_id(10 + wi as u32);
-      let mut spins = 0;
+      conc::free_seed(seed ^ (wi as u64 + 77).wrapping_mul(0x9E3779B97F4A7C15));
+      let mut spins = 0u64;
       loop {
         for (id, _) in crate::vtime::pending() {
           crate::vtime::fire(id);
         }
-        let ran = pool.run_one(spins);
+        let ran = pool.run_one(spins as usize);
         if !ran && left.load(Ordering::SeqCst) == 0 && pool.idle() && crate::vtime::pending_count() == 0 {
           break;
         }
         spins += 1;
-        if spins > 2000 {
+        if spins > cap {
           break;
         }
         std::thread::yield_now();
       }
-    }));
+      done.fetch_add(1, Ordering::SeqCst);
+    });
   }
-  let mut panics = vec![];
-  for (i, h) in hs.into_iter().enumerate() {
-    if h.join().is_err() {
-      panics.push((i, "thread panicked".to_string()));
+  // wait for all threads (they are never joined: a hung thread must not hang the shard)
+  let t0 = Instant::now();
+  let mut timed_out = false;
+  while done.load(Ordering::SeqCst) < total_threads {
+    if t0.elapsed() > std::time::Duration::from_secs(20) {
+      timed_out = true;
+      break;
     }
+    std::thread::yield_now();
   }
   conc::set_mode(prev);
-  let baton = BatonOutcome { panics, finished: vec![true; s.threads.len()], ..Default::default() };
-  Outcome { baton, evs: log.evs(), overlaps: log.overlaps(), peek_at_end: None, spawned_tasks: 0 }
+  let panics: Vec<(usize, String)> = vec![];
+  let baton = BatonOutcome { panics, finished: vec![!timed_out; s.threads.len()], timed_out, ..Default::default() };
+  let out = Outcome { baton, evs: log.evs(), overlaps: log.overlaps(), peek_at_end: None, spawned_tasks: 0 };
+  if timed_out {
+    std::mem::forget(subs);
+    std::mem::forget(cx);
+  }
+  out
 }
 
 /// `--mode miri`: a handful of tiny scenarios per process; prints one JSON line
@@ -1194,5 +1231,51 @@ pub fn two_input_name(s: &Scen) -> Option<&'static str> {
     "skip_until_threads" => Some("skip_until"),
     "sample_threads" => Some("sample"),
     _ => None,
+  }
+}
+
+
+/// free-running stress: real parallelism with seeded jitter at every lock point
+pub fn free_campaign(
+  cfg: &Cfg,
+  rep: &mut Report,
+  n: usize,
+  salt: u64,
+  gen: &mut dyn FnMut(&mut Rng) -> Scen,
+  oracle: &dyn Fn(&Outcome, &Scen) -> Option<(String, serde_json::Value)>,
+) {
+  let mut rng = Rng::new(cfg.seed ^ salt);
+  let mut hung = 0;
+  for i in 0..n {
+    let mut r = rng.fork();
+    if !cfg.mine(i) {
+      continue;
+    }
+    let id = format!("free:{}", i);
+    if !cfg.wants(&id) {
+      continue;
+    }
+    if hung >= 3 {
+      break;
+    }
+    let s = gen(&mut r);
+    let seed = r.next();
+    rep.evaluations += 1;
+    rep.count("free_parallel_runs", 1);
+    let o = run_scen_free_mode(&s, if r.chance(2, 3) { conc::FREE } else { conc::OFF }, seed);
+    rep.events += o.evs.len() as u64;
+    rep.set("thread_scenarios_covered", s.name);
+    // distinct interleavings actually observed: the order of the stamped events
+    let order: Vec<(u32, u32)> = o.evs.iter().map(|e| (e.thread, e.id)).collect();
+    rep.distinct("distinct_free_run_event_orders", hash64(&(&s, &order)));
+    if o.baton.timed_out {
+      hung += 1;
+      rep.inconclusive.push(format!("{}: a free-running thread did not finish within 20 s (no logical witness), scenario {:?}", id, s));
+      continue;
+    }
+    if let Some((kind, detail)) = universal(&o).or_else(|| oracle(&o, &s)) {
+      rep.violation(&kind, &format!("{}[free-run]", s.name), &id, json!({"scenario": format!("{:?}", s), "result": detail,
+        "log": o.evs.iter().filter(|e| e.id < 3000).take(80).map(|e| format!("t{}#{}:{}:{:?}", e.thread, e.seq, e.id, e.k)).collect::<Vec<_>>()}));
+    }
   }
 }
